@@ -308,3 +308,91 @@ func lapseWhileLocked(r *ev.Run) {
 		r.Nontrivial("lapse-while-locked")
 	})
 }
+
+// closeDuringRoundTrip: Close arrives at a locked shim while another request is in the middle of its round trip to a
+// slow underlying agent (Forward, Extension and a wrong-passphrase Unlock are not refused up front on a locked shim).
+// Close must be refused however the two are scheduled: afterwards the pending request completes, the right passphrase
+// unlocks and the shim lists what it listed before.
+func closeDuringRoundTrip(r *ev.Run) {
+	for vi, busy := range []string{"forward", "extension", "wrong-unlock", "forward"} {
+		c := r.Case("close-during-round-trip", vi)
+		if c == nil {
+			continue
+		}
+		r.Eval(1)
+		r.Guard(c, "close during round trip", busy, func() {
+			ag := wire.New()
+			defer ag.Close()
+			sock, err := ag.Listen()
+			if err != nil {
+				r.Inconclusive(err.Error())
+				return
+			}
+			pool := gen.Pool()
+			ag.Keyring.Add(agent.AddedKey{PrivateKey: pool[1].Priv, Comment: "k1"})
+			inner, err := shimagent.New(shimagent.Option{Address: sock})
+			if err != nil {
+				r.Violation(c, "shim-construction-fails-without-fault", err.Error(), nil)
+				return
+			}
+			hung := false
+			s := &sh.Guarded{Inner: inner, OnHang: func(op string) { hung = true; ag.Close() }}
+			before, _ := s.List()
+			pass := []byte("right passphrase")
+			if err := s.Lock(pass); err != nil {
+				r.Violation(c, "lock-fails-without-fault", err.Error(), nil)
+				return
+			}
+			n0 := ag.NumRequests()
+			delay := time.Duration(150+100*vi) * time.Millisecond
+			ag.SetPlan(func(idx int, _ []byte) wire.Action {
+				if idx == n0 {
+					return wire.Action{Kind: wire.Honest, Delay: delay}
+				}
+				return wire.Action{Kind: wire.Honest}
+			})
+			done := make(chan struct{})
+			go func() {
+				defer close(done)
+				switch busy {
+				case "forward":
+					inner.Forward([]byte{200, 1, 2, 3})
+				case "extension":
+					inner.Extension("verif@example.com", []byte("x"))
+				case "wrong-unlock":
+					inner.Unlock([]byte("not the passphrase"))
+				}
+			}()
+			deadline := time.Now().Add(ev.OpTimeout())
+			for ag.NumRequests() == n0 && time.Now().Before(deadline) {
+				time.Sleep(200 * time.Microsecond)
+			}
+			if ag.NumRequests() == n0 {
+				r.Count("close-during-round-trip: the slow request never reached the underlying agent", 1)
+				return
+			}
+			cerr := s.Close()
+			<-done
+			if hung {
+				r.Violation(c, "operation-does-not-return:close-during-round-trip", busy, nil)
+				return
+			}
+			if cerr == nil {
+				r.Violation(c, "locked-close-succeeds:during-"+busy, "Close on a locked shim returned nil while a "+busy+" round trip to the underlying agent was pending", busy)
+				return
+			}
+			if uerr := s.Unlock(pass); uerr != nil {
+				r.Violation(c, "unlock-with-right-passphrase-fails:after-refused-close", fmt.Sprintf("Close (refused: %v) arrived during a %s round trip; Unlock(right passphrase) then returned %v", cerr, busy, uerr), busy)
+				return
+			}
+			after, lerr := s.List()
+			if lerr != nil || len(after) != len(before) {
+				r.Violation(c, "shim-unusable-after-refused-close", fmt.Sprintf("listing after unlock: %d identities, err=%v (before the lock: %d)", len(after), lerr, len(before)), busy)
+				return
+			}
+			s.Close()
+			r.Count("Close refused on a locked shim while a round trip was pending; unlock and listing fine afterwards", 1)
+			r.Nontrivial("close-during-round-trip:" + busy)
+		})
+	}
+}
